@@ -19,7 +19,8 @@ EXPLANATION = (
     "insert(i != 0) of a value taken from a queue, no rotate / sort / reverse); arrivals reach the policy in the call and order in which they came.  (4) a job is left waiting only through the `break` taken when "
     "get_pool_with_max_avail_ram returned -1; that helper returns an index iff some pool has free CPU > 0 and free RAM > 0 (it "
     "returns the pool with most free RAM among those), scanning all pools; in priority-pool the scan of a pool's queue stops only on depletion of that "
-    "pool, every pool is served in every round, and the placement pass is on every path of a round (no early return).  (5) Suspend objects are constructed only in the "
+    "pool, every pool is served in every round, and the placement pass is on every path of a round (no early return); every arriving pipeline and the "
+    "pipeline of every result is taken up in that round (stored into the intake table / queued in every iteration, nothing filtered or removed).  (5) Suspend objects are constructed only in the "
     "priority scheduler (and the REST decoder).  (6) the suspension block runs only while a query job is waiting; a container is "
     "selected only if can_suspend_container(), its priority != QUERY, and fewer than len(qry_jobs) were selected.  (7) re-offer "
     "(K18): every Suspend issued is accompanied, in the same block, by the registration of the displaced work (the container's "
